@@ -35,6 +35,10 @@ claimed = {
    text="Seeded schedule search over Read/Write/Transform calls of up to 6 goroutines in 1-3 simulated processes on one file (self-checking values of 0..70000 bytes, chunked writes, page-granular torn transfers), histories of at most 24 operations stamped with the simulator's global event sequence and checked with porcupine against a register model (stale reads, lost updates, real-time order), plus a torn-value detector on every Read and on the bytes Transform hands to its function. Fault scenario: one Transform in its own process has its k-th file operation fail or write short then fail (or its function fails) for longer / shorter / same-length results; a Transform that returned an error must be a no-op in the model. Known finding F2 (empty read of a file that was absent) is reported as KNOWN-FINDING, every other violation exits 1.",
    note="Single fault per run for the rollback clause (double faults only assert no panic / no deadlock). Faults are injected only into Transform. porcupine Unknown (timeout) is counted, never reported as pass or fail.",
    tech="deterministic simulation with fault injection: seeded scheduler over intercepted file/flock operations, porcupine linearizability check of the recorded history, torn-value detector"),
+ "C20": dict(cat="exploration", ref="3 (C20)",
+   text="Seeded schedule search over concurrent client requests to a goproxytest server on a generated module directory (escaped upper-case paths, /v2, release / pre-release / pseudo / +incompatible / invalid-for-path versions; .txt, .txtar and directory layouts; nested, dot and empty files), every sync.Map / atomic / Mutex operation of the two once-caches and every directory-layout file read being a scheduler decision. Every response (status, .info/.mod bytes, decoded .zip member set, list lines, 404 for absent versions, near-miss spellings and malformed URLs) is compared with a table computed from the generated description alone; all concurrent answers must equal it.",
+   note="TCP/HTTP transport is a stub (direct handler delivery); x/tools/txtar.ParseFile is unmodified (module cache cannot be overlaid). No faults (the statement has no failure clause). All-hex commit-hash queries are not generated.",
+   tech="deterministic simulation: seeded scheduler over substituted sync/atomic/os and a stub HTTP transport, reference response table"),
 }
 na = {
  "C02": "pure function of the line text and the assignment history: no schedule, clock, fault or second party for a simulator to own",
